@@ -7,6 +7,9 @@ raise, comparisons, products, annotations, message text).  Each function is exec
 inputs; the observable outcome -- returned value or exception class, the final state of every mutable argument, the effect log --
 must be identical (an exception counts as an exception: its class is not compared).  A difference is a bug in the canonicaliser that could make the loader treat a changed function as unchanged.
 
+Assumptions of the rewriting system that the generator respects: arithmetic is well typed (no list - int), and reading a plain
+attribute of `self` does not raise.
+
 usage: tools/canon_selfcheck.py [n_programs=3000] [seed=0]
 """
 import ast
@@ -35,7 +38,7 @@ class Gen:
         if c < 0.45 and defined:
             return r.choice(sorted(defined))
         if c < 0.6:
-            return r.choice(["self.p", "self.q", "lst[0]", "lst[1]", "len(lst)", "self.arr[0]", "lst[a % 6]", "(a // b)", "tbl[b]", "(a % b)", "self.missing"])
+            return r.choice(["self.p", "self.q", "lst[0]", "lst[1]", "len(lst)", "self.arr[0]", "lst[a % 6]", "(a // b)", "tbl[b]", "(a % b)"])
         return str(r.randint(-3, 5))
 
     def expr(self, defined, depth=0):
@@ -118,7 +121,15 @@ class Gen:
                 h = r.choice(self.helpers)
                 call = f"{h}(self, {self.expr(defined, 1)}, {self.atom(defined)}, lst, keep)"
                 k = r.random()
-                if k < 0.6:
+                if k < 0.25 and depth < 3:
+                    body, d1 = self.block(defined, depth + 1, in_loop)
+                    out.append(f"if {call}:")
+                    out += ["    " + ln for ln in body]
+                    if r.random() < 0.4:
+                        els, d2 = self.block(defined, depth + 1, in_loop)
+                        out.append("else:")
+                        out += ["    " + ln for ln in els]
+                elif k < 0.6:
                     v = self.fresh()
                     out.append(f"{v} = {call}")
                     out.append(f"{v} = 0 if {v} is None else {v}")
@@ -152,6 +163,25 @@ class Gen:
                 body, _ = self.block(defined | {i}, depth + 1, True)
                 out.append(f"for {i} in range({r.randint(0, 3)}):")
                 out += ["    " + ln for ln in body]
+            elif c < 0.82 and len(defined) > 2:
+                # an assignment (possibly in a branch or a try) directly followed by the return of that name
+                v = r.choice(sorted(defined - {"a", "b"}))
+                k = r.random()
+                if k < 0.4:
+                    out.append(f"if {self.cond(defined)}:")
+                    out.append(f"    {v} = {self.expr(defined)}")
+                elif k < 0.7:
+                    w = self.fresh()
+                    out.append("try:")
+                    out.append(f"    {w} = {self.expr(defined)}")
+                    out.append("except KeyError:")
+                    out.append(f"    return {self.atom(defined)}")
+                    v = w
+                else:
+                    v2 = self.fresh()
+                    out.append(f"{v}, {v2} = {self.expr(defined)}, {self.expr(defined)}")
+                out.append(f"return {v}")
+                break
             elif c < 0.88:
                 out.append(f"return {self.expr(defined)}")
                 break
